@@ -79,31 +79,31 @@ theorem lsum_flat_transpose (f : ℤ → ℤ → ℚ) (n m : ℕ) :
     lsum (flat (fun y x => f x y) m n) = lsum (flat f n m) := by
   rw [lsum_flat, lsum_flat, Finset.sum_comm]
 
-theorem refine_r_swap (r y x h w : ℤ) : Gen.refine_r r x y w h = Gen.refine_r r y x h w := by
-  unfold Gen.refine_r; omega
+theorem refine_r_swap (r y x h w : ℤ) : Model.refine_r r x y w h = Model.refine_r r y x h w := by
+  unfold Model.refine_r; omega
 
 /-- **the refinement of the transposed map around the swapped centre is the swapped refinement** -/
 theorem refineCenter_transpose (corr : ℤ → ℤ → ℚ) (h w cy cx : ℤ) (hy : 0 ≤ cy ∧ cy < h) (hx : 0 ≤ cx ∧ cx < w) :
-    refineCenter (fun y x => corr x y) w h cx cy Gen.refine_radius
-      = ((refineCenter corr h w cy cx Gen.refine_radius).2, (refineCenter corr h w cy cx Gen.refine_radius).1) := by
+    refineCenter (fun y x => corr x y) w h cx cy Model.refine_radius
+      = ((refineCenter corr h w cy cx Model.refine_radius).2, (refineCenter corr h w cy cx Model.refine_radius).1) := by
   unfold refineCenter
   simp only []
   rw [refine_r_swap]
   have hb := C03.refine_cut_in_bounds cy cx h w hy hx
   simp only [] at hb
-  set r := Gen.refine_r Gen.refine_radius cy cx h w with hr
-  by_cases hg : Gen.refine_guard r = true
+  set r := Model.refine_r Model.refine_radius cy cx h w with hr
+  by_cases hg : Model.refine_guard r = true
   · rw [if_pos hg, if_pos hg]
   · rw [if_neg hg, if_neg hg]
-    have hgf : Gen.refine_guard r = false := by simpa using hg
+    have hgf : Model.refine_guard r = false := by simpa using hg
     obtain ⟨hr0, _, hcut⟩ := hb
     obtain ⟨_, _, _, _, hny, hnx⟩ := hcut hgf
     have hN : (2 * r + 1) = (((2 * r + 1).toNat : ℕ) : ℤ) := (Int.toNat_of_nonneg (by omega)).symm
     have hNpos : 0 < (2 * r + 1).toNat := by omega
     rw [hny, hnx, hN]
     set N := (2 * r + 1).toNat
-    set cut : ℤ → ℤ → ℚ := fun y x => corr (Gen.cut_lo cy r + y) (Gen.cut_lo cx r + x) with hcutdef
-    have hcut' : (fun y x => corr (Gen.cut_lo cy r + x) (Gen.cut_lo cx r + y)) = fun y x => cut x y := rfl
+    set cut : ℤ → ℤ → ℚ := fun y x => corr (Model.cut_lo cy r + y) (Model.cut_lo cx r + x) with hcutdef
+    have hcut' : (fun y x => corr (Model.cut_lo cy r + x) (Model.cut_lo cx r + y)) = fun y x => cut x y := rfl
     rw [hcut']
     have hmin : minList (flat (fun y x => cut x y) N N) = minList (flat cut N N) :=
       minList_flat_transpose cut N N hNpos hNpos
@@ -122,13 +122,13 @@ theorem refineCenter_transpose (corr : ℤ → ℤ → ℚ) (h w cy cx : ℤ) (h
 theorem mem_elevCands (corr : ℤ → ℤ → ℚ) (h w : ℤ) (py px height v : ℚ) :
     v ∈ elevCands corr h w py px height ↔
       ∃ y x : ℤ, (0 ≤ y ∧ y < h) ∧ (0 ≤ x ∧ x < w) ∧
-        Gen.elev_rmin * Gen.elev_rmin ≤ ((y : ℚ) - py) ^ 2 + ((x : ℚ) - px) ^ 2 ∧
+        Model.elev_rmin * Model.elev_rmin ≤ ((y : ℚ) - py) ^ 2 + ((x : ℚ) - px) ^ 2 ∧
         v = (height - corr y x) ^ 2 / (((y : ℚ) - py) ^ 2 + ((x : ℚ) - px) ^ 2) := by
   unfold elevCands
   simp only [List.mem_flatMap, List.mem_filterMap, mem_irange]
   constructor
   · rintro ⟨y, hy, x, hx, hv⟩
-    by_cases hc : Gen.elev_rmin * Gen.elev_rmin ≤ ((y : ℚ) - py) ^ 2 + ((x : ℚ) - px) ^ 2
+    by_cases hc : Model.elev_rmin * Model.elev_rmin ≤ ((y : ℚ) - py) ^ 2 + ((x : ℚ) - px) ^ 2
     · rw [if_pos hc] at hv
       exact ⟨y, x, hy, hx, hc, (Option.some.inj hv).symm⟩
     · rw [if_neg hc] at hv; cases hv
@@ -199,19 +199,19 @@ theorem evaluate_transpose (corr : ℤ → ℤ → ℚ) (n m : ℕ) (hn : 0 < n)
       = corr (evaluate corr n m).cy (evaluate corr n m).cx
     rw [ex, ey]
   have hrf : refineCenter (fun y x => corr x y) m n (evaluate (fun y x => corr x y) m n).cy
-        (evaluate (fun y x => corr x y) m n).cx Gen.refine_radius
-      = ((refineCenter corr n m (evaluate corr n m).cy (evaluate corr n m).cx Gen.refine_radius).2,
-         (refineCenter corr n m (evaluate corr n m).cy (evaluate corr n m).cx Gen.refine_radius).1) := by
+        (evaluate (fun y x => corr x y) m n).cx Model.refine_radius
+      = ((refineCenter corr n m (evaluate corr n m).cy (evaluate corr n m).cx Model.refine_radius).2,
+         (refineCenter corr n m (evaluate corr n m).cy (evaluate corr n m).cx Model.refine_radius).1) := by
     rw [ey, ex]
     exact refineCenter_transpose corr n m _ _ h1.1 h1.2.1
   have a1 : (evaluate (fun y x => corr x y) m n).ry = (refineCenter (fun y x => corr x y) m n
-      (evaluate (fun y x => corr x y) m n).cy (evaluate (fun y x => corr x y) m n).cx Gen.refine_radius).1 := rfl
+      (evaluate (fun y x => corr x y) m n).cy (evaluate (fun y x => corr x y) m n).cx Model.refine_radius).1 := rfl
   have a2 : (evaluate (fun y x => corr x y) m n).rx = (refineCenter (fun y x => corr x y) m n
-      (evaluate (fun y x => corr x y) m n).cy (evaluate (fun y x => corr x y) m n).cx Gen.refine_radius).2 := rfl
+      (evaluate (fun y x => corr x y) m n).cy (evaluate (fun y x => corr x y) m n).cx Model.refine_radius).2 := rfl
   have b1 : (evaluate corr n m).ry
-      = (refineCenter corr n m (evaluate corr n m).cy (evaluate corr n m).cx Gen.refine_radius).1 := rfl
+      = (refineCenter corr n m (evaluate corr n m).cy (evaluate corr n m).cx Model.refine_radius).1 := rfl
   have b2 : (evaluate corr n m).rx
-      = (refineCenter corr n m (evaluate corr n m).cy (evaluate corr n m).cx Gen.refine_radius).2 := rfl
+      = (refineCenter corr n m (evaluate corr n m).cy (evaluate corr n m).cx Model.refine_radius).2 := rfl
   have hry : (evaluate (fun y x => corr x y) m n).ry = (evaluate corr n m).rx := by rw [a1, b2, hrf]
   have hrx : (evaluate (fun y x => corr x y) m n).rx = (evaluate corr n m).ry := by rw [a2, b1, hrf]
   refine ⟨ey, ex, hht, hry, hrx, ?_⟩
